@@ -6,6 +6,7 @@ mod c04;
 mod c08tcp;
 mod c09;
 mod c12;
+mod c14ip;
 mod c14tcp;
 mod c15;
 mod c20;
@@ -90,6 +91,7 @@ fn main() {
             rep.rule = "stateless enumeration: tick x global (min,max) x per-link / global overrides (fixed, link max, global max; before the run or mid-run; by name or regex) x burst size / in-step offset, with the latency variate of every message answered by the explorer from {0, 1/4, 1/2, 1, 4} through the cfg-guarded hook (the clamp is exercised by 4); sender's sim_elapsed is carried in the payload, receiver logs its own at receipt; second part: 12-byte frames on an established TCP connection (either side writing), per-segment variates deviation-bounded, in-order arrival and a delay between own minimum - tick and the latest `send + max + tick` of the frames up to it".into();
             run_dfs(&mut rep, "latency-window", tier.pick(1, 2), wall, move |ch| flow::c14_scenario(ch, thorough));
             run_dfs(&mut rep, "latency-window-tcp-frames", tier.pick(2, 4), wall, move |ch| c14tcp::scenario(ch, thorough));
+            run_dfs(&mut rep, "latency-window-hosts-registered-by-address", 0, wall, move |ch| c14ip::scenario(ch, thorough));
             rep.finish();
         }
         "C09" => {
@@ -277,6 +279,8 @@ fn replay(path: &str) {
         "C14" => {
             if v["scenario"].as_str().map(|s| s.starts_with("c14-tcp")).unwrap_or(false) {
                 c14tcp::scenario(&mut ch, thorough)
+            } else if v["scenario"].as_str().map(|s| s.starts_with("c14-hosts-by-address")).unwrap_or(false) {
+                c14ip::scenario(&mut ch, thorough)
             } else {
                 flow::c14_scenario(&mut ch, thorough)
             }
